@@ -216,7 +216,9 @@ func parseUnits(body string) (units []UnitInfo, seq int32, hasTS bool) {
 // pre/post snapshots are recorded (snapshots of earlier steps are dropped to keep results small).
 func (w *World) ExecOps(supis []string, ops []Op, snapFrom int, withGor bool) *HistRun {
 	h := &HistRun{}
+	fileWrites = nil
 	for i, op := range ops {
+		curStep = i
 		st := Step{Op: op}
 		supi := op.Supi
 		if supi == "" && op.U < len(supis) {
